@@ -324,5 +324,27 @@ PROPS["C15"] = {
     "shrink": False,
 }
 
+PROPS["C19"] = {
+    "id": "C19",
+    "lean_modules": ["JT.Props.C19"],
+    "extractors": ["saveguard"],
+    "functional_ops": ["confine"],
+    "rule": ("sessions against a real attachment server subprocess with the library's default file handler, working directory <root>/w1/w2/w3/w4/cwd in a scratch tree: every name of a hostile catalogue alone "
+             "(parent components up to 10 levels, absolute paths, '.', '..', '/', '//', trailing slash, NUL bytes, 255-byte names, backslashes, percent-encoding, the handler's own file.log, non-UTF-8), then 1..4 names per session drawn from the catalogue, "
+             "random strings over a path alphabet, random '/'-joined component soups and random bytes; phones: ordinary, all zeros, leading zeros, hex nibbles, random; with and without uploading the files; five dialects. "
+             "Observed: the complete tree under <root> after the session plus Lstat probes of the locations the raw names would resolve to above <root> / absolutely. non-trivial = session in which something was stored or a name was rejected."),
+    "technique": "Lean 4 proof about the name guard REGENERATED from attachment/file_event.go by a go/ast translator, a model of filepath.Base, Bcd2Dec and lexical path resolution + socket sessions on the real server with the default file handler compared with the model and a confinement oracle on the scratch tree",
+    "level_text": ("Machine-checked Lean 4 theorems over the guard expression translated from the current source on every run: for EVERY announced name (any bytes, any length), EVERY phone field and EVERY working directory, a name that is not skipped makes "
+                   "\"./<phone>/<name>\" resolve to an entry directly inside <cwd>/<phone> (or, for the name '/', to that directory itself, where the write fails); names with a directory part, '.', '..' and the empty name are skipped; the phone string is a non-empty string of hex digits. "
+                   "Source facts (path format, WriteFile/MkdirAll arguments, the complete list of file-creating calls of the package) are extracted and checked by `decide`. Partial: path resolution is a lexical model without symbolic links (the server creates none); "
+                   "the operating system's behaviour is tied by executing the real handler in a scratch tree on every run."),
+    "level_note": "Trusted: Lean kernel; saveguard translator (small expression grammar; unknown constructs fail an obligation); lexical path model (no symlinks); sysd/sock harness.",
+    "trusted_base": [KERNEL, AXIOMS, HARNESS, _SOCK_TB[3],
+                     "translator harness/cmd/extract/saveguard.go: Go boolean expression over the loop variable, string literals, filepath.Base, strings.Contains/HasPrefix/HasSuffix, filepath.IsAbs -> Lean; anything else is listed in `untranslated`, which a theorem requires to be empty",
+                     "modelled rather than verified: filepath.Base (Unix), utils.Bcd2Dec, fmt.Sprintf(\"./%s/%s\"), kernel path resolution as a lexical walk without symbolic links, NAME_MAX 255, NUL rejection"],
+    "assumptions": ["no symbolic links inside the working directory (the server creates none)", "Unix path semantics ('/' is the only separator)", "the phone field of the header is not empty (6 or 10 BCD bytes)"],
+    "shrink": False,
+}
+
 # properties that are not claimed, with the reason (anything not listed and not in PROPS gets a generic "not built yet")
 NOT_APPLICABLE = {}
